@@ -1,6 +1,7 @@
 """C06 anti-replay: theorems Properties/C06.v + correspondence of the window model with
 (a) the replay detector driven as conn.go drives it and (b) real connections receiving
 arrival scripts; implementation-side monitors: no payload twice, in-window delivered once."""
+import json
 import vlib
 from vlib import cN, cNlist, clist, cbool
 
@@ -33,6 +34,37 @@ def monitor_e2e(c):
     if c["extra"]:
         return "%d payloads delivered that were never written" % c["extra"]
     return None
+
+
+def monitor_x(c):
+    """histories with an export/resume or with records overtaking the peer's final flight"""
+    if c.get("notes"):
+        return None, None, None
+    if c["kind"] == "resume-replay":
+        again = sorted(set(c["before"]) & set(c["after"]))
+        if again:
+            return ("payload %s delivered by Read before the state export and AGAIN by the resumed connection when the network "
+                    "duplicated its datagram (the peer wrote it once)" % again,
+                    "state.go generateState / generateInternalState, resume.go (the exported state carries nothing about the receive side)",
+                    {"monitor": "payload delivered again after export/resume"})
+        want = [i for i in range(c["n"] + 1) if i not in c["before"]]
+        if sorted(c["after"]) != want or c["extra"]:
+            return ("after the resume Read returned payloads %s, expected each of %s exactly once" % (c["after"], want),
+                    "state.go / resume.go", {"monitor": "resumed connection does not deliver the remaining records exactly once"})
+        return None, None, None
+    # early
+    want = list(range(c["n"] + 1))
+    if not c["done"]:
+        return ("%d application record(s) that overtook the server's ChangeCipherSpec/Finished: the client's handshake did not "
+                "complete although the final flight arrived" % c["n"],
+                "conn.go handleApplicationDataRecord (hand-off to Read before the handshake completed)",
+                {"monitor": "early application data blocks the handshake", "version": 12})
+    if sorted(c["after"]) != want or c["extra"] or c["parked"]:
+        return ("records that overtook the server's ChangeCipherSpec/Finished (reordering inside the window): Read returned %s, "
+                "expected each of %s exactly once; %d record(s) still parked in Conn.encryptedPackets" % (c["after"], want, c["parked"]),
+                "internal/flight/flight12/flight5handler.go flight5Parse (never reads the early-record queue)",
+                {"monitor": "records that overtook the final flight not delivered exactly once", "version": 12})
+    return None, None, None
 
 
 def run(chk):
@@ -117,6 +149,34 @@ def run(chk):
             chk.leg_info("e2e", variants=variants, windows=sorted({c["w"] for c in e2e}),
                          exhaustive="all arrival sequences of length<=%d over 3 records, W=2"
                                     % (6 if chk.tier == "thorough" else 4))
+    # histories around the steady state of one connection: export/resume in the middle, records that overtake
+    # the end of the peer's final flight
+    out_x = vlib.out_path("c06x")
+    rc3, o3 = vlib.go_test(".", "^TestVerifC06X$", dict(env, VERIF_OUT=out_x), timeout=900, tags=["c06"])
+    xs = vlib.read_jsonl(out_x)
+    vlib.cleanup(out_x)
+    if rc3 != 0:
+        kind = vlib.classify_go_failure(o3)
+        if kind == "panic":
+            chk.finding("conn.go receive path", {"monitor": "panic", "test": "TestVerifC06X"}, "panic in TestVerifC06X",
+                        {"test": "TestVerifC06X", "output": o3[-3000:]})
+            found_input = True
+        else:
+            chk.broken("correspondence harness TestVerifC06X no longer runs against /repo (%s)" % kind, o3)
+    seen_sig = set()
+    for c in xs:
+        m, site, sig = monitor_x(c)
+        if m and json.dumps(sig, sort_keys=True) not in seen_sig:
+            seen_sig.add(json.dumps(sig, sort_keys=True))
+            found_input = True
+            chk.finding(site, sig, m + " [variant %s, window %d, %d payloads]" % (c["variant"], c["w"], c["n"]),
+                        {"how": "TestVerifC06X (go test -tags verif, overlay c06): kind `resume-replay` = establish, server writes n, "
+                                "client reads the first k, client state exported + resumed on a new endpoint, every old datagram "
+                                "delivered again, one new record; kind `early` = the server's n records are delivered before the "
+                                "datagram with its ChangeCipherSpec/Finished", "case": c})
+    chk.count("histories", len(xs), [(c["kind"], c["variant"], c["w"], c["n"], tuple(c.get("before") or [])) for c in xs
+                                     if c.get("after")], samples=xs[:2])
+    chk.cov["traces_validated_against_impl"] += len(xs)
     if not proved:
         where, out = getattr(chk, "proof_error", ("?", ""))
         chk.broken("proof obligation Properties/C06.v no longer checks (%s)" % where, out) \
